@@ -23,7 +23,7 @@ ReplaceAt(t, path, u) ==
   ELSE [t EXCEPT !.r = ReplaceAt(t.r, Tail(path), u)]
 ParentPath(p) == SubSeq(p, 1, Len(p) - 1)
 ParentKind(t, p) == IF Len(p) = 0 THEN "none" ELSE TermAt(t, ParentPath(p)).k
-SideOf(p) == p[Len(p)]
+SideOf(p) == IF Len(p) = 0 THEN "-" ELSE p[Len(p)]
 SiblingOf(t, p) == LET par == TermAt(t, ParentPath(p)) IN IF IsBin(par.k) THEN (IF SideOf(p) = "L" THEN par.r ELSE par.l) ELSE [k |-> "none"]
 B(k, l, r) == [k |-> k, l |-> l, r |-> r]
 U(k, c) == [k |-> k, c |-> c]
